@@ -87,4 +87,9 @@ META = {
         "level_text": "Fault enumeration: for each generated history and public call, a fault-free run fixes the result and the number of storage calls; every single position is then failed (plus drawn multi-fault sets) on a fresh clone with a cold handle. The call must return an error or exactly the fault-free result, never panic or abort the process; writes must not report success after a failed storage write and must leave a loadable store.",
         "level_note": _TB + "Exhaustive per call, sampled across histories and calls. Calls without an error result are out of scope (as the property states).",
     },
+    "C06": {
+        "technique": "generated concurrent scripts with a harness-owned schedule at named points (storage seam + verif yield points) and race-detector stress with a checking oracle",
+        "level_text": "Exploration of schedules: property-based testing cannot enumerate interleavings of the Go runtime; it owns the schedule at every storage call and at tagged points inside the commit / prune protocol (a generated plan parks and releases threads there, which e.g. places a reader deterministically between ndb.Commit and the publication of the new latest version), and it runs the same generated scripts on the real scheduler under the race detector. Every reader result is compared with the precomputed model of its version, pinned versions must survive prune requests, and the store is re-read completely after each run.",
+        "level_note": _TB + "No claim of schedule coverage: in-memory races between two controlled points are visible only to the race detector on the schedules that happen. Open finding F12 (reader of the latest version inside the commit window sees the next version through the fast index; transient) is recognised by its signature and counted. Plans are reproducible only at the granularity of the controlled points; stress failures are reported with scripts and race report but cannot be shrunk.",
+    },
 }
